@@ -97,6 +97,7 @@ def run(ck, fb):
     ck.borrow('rules.c02', {'R02s': 'R01u'}, 'an acknowledged write whose log record is cut by a later preallocation step is missing after the restart')
     r01t(ck, fb)
     r01w(ck, fb)
+    ck.borrow('rules.c07', {'R07f': 'R01x'}, 'a snapshot must be labelled with the index of the last entry it contains: last_applied_log advances when the apply is accepted, otherwise the replay after a restart applies an entry twice')
     ck.borrow('rules.c19', {'R19h': 'R01q'}, 'a request served while the restore is still running is applied on top of a state that is about to be overwritten by it')
     ck.borrow('rules.c20', {'R20g': 'R01p'}, 'a snapshot whose header record is longer than one read chunk must still be readable at start-up, otherwise everything it covers is missing after the restart')
     ck.borrow('rules.c08', {'R08h': 'R01k'}, 'the start-up restore loads the catalogued snapshot whatever the last-applied index says')
